@@ -17,6 +17,7 @@ Check(t) ==
     ELSE IF t.fast.dx # t.plain.dx THEN "fast-path-first-derivative"
     ELSE IF t.fast.lap # t.plain.lap THEN "fast-path-second-derivative"
     ELSE IF t.fast.pgrad # t.plain.pgrad THEN "fast-path-parameter-gradient"
+    ELSE IF t.fast.pgrad_d # t.plain.pgrad_d THEN "fast-path-parameter-gradient-of-derivative-loss"
     ELSE IF t.fast3.out # t.plain.out3 \/ t.fast3.pgrad # t.plain.pgrad3 THEN "fast-path-with-copied-trunk-input"
     ELSE "ok"
 Init == tid \in 1..Len(Traces) /\ verdict = Check(Traces[tid]) /\ dev = ""
